@@ -375,6 +375,11 @@ def _make(param):
             _check_classes(trees, shard, nshards, res, "NEST(%d)" % arg, deadline)
             if not res["cex"]:
                 _check_moves(trees, shard, nshards, res, "NEST(%d)" % arg, deadline)
+        elif what == "BIGC":
+            # constants around the places where a numeric representation could change (2**31, 2**53, 2**63, 2**64, 10**16):
+            # O1 over all expressions with <= 3 nodes whose constants come from that table
+            trees = list(universe(3, tuple(["a", "b"] + [str(c) for c in BIG_CONSTS])))
+            _check_classes(trees, shard, nshards, res, "BIGC", deadline)
         elif what == "RAND":
             seed = int(os.environ.get("VERIF_SEED", "0") or 0)
             trees = rand_universe(seed * 1000 + 17, arg)
@@ -429,12 +434,15 @@ def _replay(param, c: Dict[str, Any]) -> Dict[str, Any]:
     return {"reproduced": False, "fingerprint": "", "detail": "sig equal=%s values %r %r" % (s1 == s2, v1, v2)}
 
 
+BIG_CONSTS = [2 ** 31 - 1, 2 ** 31, 2 ** 53 - 1, 2 ** 53, 2 ** 53 + 1, 2 ** 63 - 1, 2 ** 63, 2 ** 64, 2 ** 64 + 1, 10 ** 16, 10 ** 16 + 1]
+
+
 def obligations(tier: str) -> List[Ob]:
     ns = 16
     if tier == "quick":
-        plan = [("U", 5, 400.0), ("NEST", 2, 120.0), ("RAND", 600, 60.0)]
+        plan = [("U", 5, 400.0), ("NEST", 2, 120.0), ("BIGC", 3, 120.0), ("RAND", 600, 60.0)]
     else:
-        plan = [("U", 5, 1500.0), ("NEST", 2, 300.0), ("NEST", 3, 1500.0), ("RAND", 6000, 900.0)]
+        plan = [("U", 5, 1500.0), ("NEST", 2, 300.0), ("NEST", 3, 1500.0), ("BIGC", 3, 300.0), ("RAND", 6000, 900.0)]
     obs = []
     for what, arg, budget in plan:
         obs.append(
@@ -447,6 +455,7 @@ def obligations(tier: str) -> List[Ob]:
                 engine="B",
                 bound={"U": "all expressions with <= %d AST nodes over leaves {a,b,c,0,1,2,3}, unary -/abs, binary + - * // %% < == min max, **2/**3, if-else; O1 per signature class, O2 all single AC moves, O3 all single-point mutations (<=4 nodes)" % arg,
                        "NEST": "every %s of atoms (7 leaves + all 3-node + * - // expressions over {a,b,2} + -a + abs(b)) joined by + or *: O1 + O2" % ("pair" if arg == 2 else "triple (both bracketings, reduced atom pool)"),
+                       "BIGC": "all expressions with <= 3 AST nodes over {a, b} and 11 integer constants around 2**31, 2**53, 2**63, 2**64, 10**16: O1 per signature class",
                        "RAND": "%d VERIF_SEED-seeded expressions of 6..11 nodes: O2 moves + up to 12 mutations each (a draw, not a bound)" % arg}[what],
                 targets=["semantiva/metadata/semantic_id.py:normalize_expression_sig_v1", "semantiva/metadata/semantic_id.py:_dump_ast_commutative"],
             )
